@@ -44,8 +44,8 @@ META = {
     "level_note": "Trusted: CPython's sys.monitoring and dis, vf.gen.pygen's renderer.",
 }
 PLAN = {
-    "quick": {"shards": 16, "examples": 480, "max_stmts": 14, "max_funcs": 2},
-    "thorough": {"shards": 16, "examples": 16000, "timeout": 3000, "max_stmts": 25, "max_funcs": 3},
+    "quick": {"shards": 16, "examples": 320, "max_stmts": 14, "max_funcs": 2},
+    "thorough": {"shards": 16, "examples": 8000, "timeout": 3000, "max_stmts": 25, "max_funcs": 3},
 }
 FEATURES = set(pygen.FEATURES) - {"strtuple"}
 
